@@ -174,6 +174,10 @@ C07_SITES = [
 ('ddnTransitionProbability', 'src/Factored/Utils/BayesianNetwork.cpp', 'DDN::getTransitionProbability\\s*\\(\\s*const\\s+Factors\\s*&\\s*s\\s*,\\s*const\\s+Factors\\s*&\\s*a\\s*,\\s*const\\s+Factors\\s*&\\s*s1\\s*\\)\\s*const\\s*\\{', '{doubleretval=1.0;for(size_ti=0;i<graph.getS().size();++i){retval*=transitions[i](graph.getId(i,s,a),s1[i]);}returnretval;}'),
 ('checkEqualSmall', 'include/AIToolbox/Utils/Core.hpp', 'inline\\s+bool\\s+checkEqualSmall\\s*\\(\\s*const\\s+double\\s+a\\s*,\\s*const\\s+double\\s+b\\s*\\)\\s*\\{', '{return(std::fabs(a-b)<=equalToleranceSmall);}'),
 ('checkDifferentSmall', 'include/AIToolbox/Utils/Core.hpp', 'inline\\s+bool\\s+checkDifferentSmall\\s*\\(\\s*const\\s+double\\s+a\\s*,\\s*const\\s+double\\s+b\\s*\\)\\s*\\{', '{return!checkEqualSmall(a,b);}'),
+('sampleDirichletDistribution', 'include/AIToolbox/Utils/Probability.hpp', 'void\\s+sampleDirichletDistribution\\s*\\(\\s*const\\s+TIn\\s*&\\s*params\\s*,\\s*G\\s*&\\s*generator\\s*,\\s*TOut\\s*&&\\s*out\\s*\\)\\s*\\{', '{assert(params.size()==out.size());doublesum=0.0;for(size_ti=0;i<static_cast<size_t>(params.size());++i){std::gamma_distribution<double>dist(params[i],1.0);out[i]=dist(generator);sum+=out[i];}out/=sum;}'),
+('thompsonSyncSA', 'include/AIToolbox/MDP/ThompsonModel.hpp', 'void\\s+ThompsonModel<E>::sync\\s*\\(\\s*const\\s+size_t\\s+s\\s*,\\s*const\\s+size_t\\s+a\\s*\\)\\s*\\{', '{ifconstexpr(IsExperienceEigen<E>&&requires{experience_.getVisitsTable(a).row(s).array();}){sampleDirichletDistribution(experience_.getVisitsTable(a).row(s).array().templatecast<double>()+0.5,rand_,transitions_[a].row(s));}else{doublesum=0.0;for(size_ts1=0;s1<S;++s1){std::gamma_distribution<double>dist(experience_.getVisits(s,a,s1)+0.5,1.0);transitions_[a](s,s1)=dist(rand_);sum+=transitions_[a](s,s1);}transitions_[a].row(s)/=sum;}constautovisits=experience_.getVisitsSum(s,a);constautoMLEReward=experience_.getReward(s,a);constautoM2=experience_.getM2(s,a);if(visits<2){rewards_(s,a)=MLEReward;}else{std::student_t_distribution<double>dist(visits-1);rewards_(s,a)=MLEReward+dist(rand_)*std::sqrt(M2/(visits*(visits-1)));}}'),
+('thompsonSync', 'include/AIToolbox/MDP/ThompsonModel.hpp', 'void\\s+ThompsonModel<E>::sync\\s*\\(\\s*\\)\\s*\\{', '{for(size_ta=0;a<A;++a)for(size_ts=0;s<S;++s)sync(s,a);}'),
+('coopTSSync', 'src/Factored/MDP/CooperativeThompsonModel.cpp', 'void\\s+CooperativeThompsonModel::sync\\s*\\(\\s*\\)\\s*\\{', '{constauto&S=experience_.getS();for(size_ti=0;i<S.size();++i){for(size_tj=0;j<getGraph().getSize(i);++j){syncRow(i,j);}}}'),
 ]
 
 BN = 'src/Factored/Utils/BayesianNetwork.cpp'
